@@ -35,3 +35,34 @@ package onchain
 //@ ensures modern: (normalizeBitcoinVersion(versionString) != nil && (normalizeBitcoinVersion(versionString).major > 29 || (normalizeBitcoinVersion(versionString).major == 29 && normalizeBitcoinVersion(versionString).minor >= 2))) ==> result0 == 25
 //@ ensures legacy: (normalizeBitcoinVersion(versionString) != nil && !(normalizeBitcoinVersion(versionString).major > 29 || (normalizeBitcoinVersion(versionString).major == 29 && normalizeBitcoinVersion(versionString).minor >= 2))) ==> result0 == 253
 //@ ensures floors: result0 == LegacyFeeFloorSatPerKw || result0 == ModernFeeFloorSatPerKw
+
+// ---------------------------------------------------------------------------
+// C08 / C03 / C01: the swap output of an opening transaction is the output
+// that pays exactly the swap amount to the P2WSH address of the opening script.
+// GetVoutAndVerify must find it wherever it sits (change and other outputs may
+// precede it, and may carry the same value), and must say so when there is none.
+// ---------------------------------------------------------------------------
+//@ ghost decodedTx *wire.MsgTx
+
+// btcd's transaction decoder (dependency): ASSUMED to fill the message with an
+// arbitrary transaction or fail; the ghost names the decoded message
+//@ extern wire (*MsgTx).Deserialize
+// (a transaction has fewer than 2^32 outputs and no nil output entries)
+//@ ensures result == nil ==> len(recv.TxOut) < 4294967296
+//@ sets ghost.decodedTx = recv
+
+// the expected output script is a function of the parameters and the chain
+// (sha256, address encoding and script building are library code: uninterpreted)
+//@ func (*BitcoinOnChain).GetOutputScript
+//@ pure
+
+//@ define isSwapOutput(tx, k, b, params) (tx.TxOut[k].Value == int64(params.Amount) && bytes.Compare(b.GetOutputScript(params), tx.TxOut[k].PkScript) == 0)
+
+//@ func (*BitcoinOnChain).GetVoutAndVerify
+//@ property C08 C03 C01
+//@ forall j int
+//@ requires b != nil && params != nil
+//@ loop 0 invariant @C08 none-before: (0 <= j && j <= rangeindex) ==> !isSwapOutput(ghost.decodedTx, j, b, params)
+//@ ensures @C08,C03 found-is-the-swap-output: (result0 && result2 == nil) ==> (ghost.decodedTx != nil && mi(result1) < mi(len(ghost.decodedTx.TxOut)) && isSwapOutput(ghost.decodedTx, int(result1), b, params))
+//@ ensures @C08,C03 present-is-found: (result2 == nil && ghost.decodedTx != nil && 0 <= j && j < len(ghost.decodedTx.TxOut) && isSwapOutput(ghost.decodedTx, j, b, params)) ==> result0
+//@ ensures @C08,C03 index-only-with-ok: result2 == nil ==> result0
